@@ -166,3 +166,6 @@ fn o19_2_assembly_window_dropped_mid_assembly() {
     drop(w);
 }
 
+// (An obligation tying small() to the real AssemblyWindow::new - 4096 slots written one by one into a vector - was tried and
+// withdrawn: 270-670 s of symbolic execution and then memory exhaustion, with a symbolic and with concrete limits.  The
+// rounding of the limit inside new() is therefore outside the claim; DESIGN.md 10.7, seed C06e.)
